@@ -21,30 +21,34 @@ import (
 )
 
 func ckksCfgs(tier string) []cklib.Cfg {
+	std, ci := ring.Standard, ring.ConjugateInvariant
 	q4 := []int{55, 45, 45}
-	cfgs := []cklib.Cfg{
-		{Name: "std-logN4-P1", RingType: ring.Standard, LogN: 4, LogQ: q4, LogP: []int{61}, LogScale: 45, LogSlots: -1},
-		{Name: "std-logN4-P2", RingType: ring.Standard, LogN: 4, LogQ: q4, LogP: []int{61, 61}, LogScale: 45, LogSlots: -1},
-		{Name: "std-logN4-P0", RingType: ring.Standard, LogN: 4, LogQ: q4, LogScale: 45, LogSlots: -1, Pow2: 6},
-		{Name: "std-logN4-P1-sparse2", RingType: ring.Standard, LogN: 4, LogQ: q4, LogP: []int{61}, LogScale: 45, LogSlots: 2},
-		{Name: "std-logN4-P1-sparse0", RingType: ring.Standard, LogN: 4, LogQ: q4, LogP: []int{61}, LogScale: 45, LogSlots: 0},
-		{Name: "ci-logN4-P1", RingType: ring.ConjugateInvariant, LogN: 4, LogQ: q4, LogP: []int{61}, LogScale: 45, LogSlots: -1},
-		{Name: "ci-logN4-P0", RingType: ring.ConjugateInvariant, LogN: 4, LogQ: q4, LogScale: 45, LogSlots: -1, Pow2: 6},
-		{Name: "ci-logN4-P2-sparse2", RingType: ring.ConjugateInvariant, LogN: 4, LogQ: q4, LogP: []int{61, 61}, LogScale: 45, LogSlots: 2},
+	q5 := []int{55, 45, 45, 45}
+	mk := func(name string, rt ring.Type, logN int, q, p []int, logSlots, pow2 int) cklib.Cfg {
+		return cklib.Cfg{Name: name, RingType: rt, LogN: logN, LogQ: q, LogP: p, LogScale: 45, LogSlots: logSlots, Pow2: pow2}
 	}
-	cfgs = append(cfgs,
-		cklib.Cfg{Name: "std-logN5-P1", RingType: ring.Standard, LogN: 5, LogQ: q4, LogP: []int{61}, LogScale: 45, LogSlots: -1},
-		cklib.Cfg{Name: "ci-logN5-P2", RingType: ring.ConjugateInvariant, LogN: 5, LogQ: q4, LogP: []int{61, 61}, LogScale: 45, LogSlots: -1},
-	)
+	p1, p2, p3 := []int{61}, []int{61, 61}, []int{61, 61, 61}
+	// quick = the former thorough tier and more: LogN 4-7, both rings (odd and even log N), sparse and full
+	// packing, 0/1/2/3 auxiliary primes (3 does not divide the 4 primes of Q)
+	cfgs := []cklib.Cfg{
+		mk("std-logN4-P1", std, 4, q4, p1, -1, 0), mk("std-logN4-P2", std, 4, q4, p2, -1, 0), mk("std-logN4-P0", std, 4, q4, nil, -1, 6),
+		mk("std-logN4-P3", std, 4, q5, p3, -1, 0),
+		mk("std-logN4-P1-sparse2", std, 4, q4, p1, 2, 0), mk("std-logN4-P1-sparse0", std, 4, q4, p1, 0, 0),
+		mk("ci-logN4-P1", ci, 4, q4, p1, -1, 0), mk("ci-logN4-P0", ci, 4, q4, nil, -1, 6), mk("ci-logN4-P2-sparse2", ci, 4, q4, p2, 2, 0),
+		mk("std-logN5-P1", std, 5, q4, p1, -1, 0), mk("ci-logN5-P2", ci, 5, q4, p2, -1, 0),
+		mk("std-logN5-P2-sparse3", std, 5, q4, p2, 3, 0), mk("ci-logN5-P1-sparse3", ci, 5, q4, p1, 3, 0),
+		mk("std-logN6-P1", std, 6, q4, p1, -1, 0), mk("ci-logN6-P1", ci, 6, q4, p1, -1, 0), mk("std-logN5-P0", std, 5, q4, nil, -1, 6),
+		mk("std-logN7-P2-sparse4", std, 7, q4, p2, 4, 0), mk("std-logN7-P1", std, 7, q4, p1, -1, 0), mk("ci-logN7-P2-sparse5", ci, 7, q4, p2, 5, 0),
+	}
 	if tier == "thorough" {
+		// the real thorough tier: LogN 6-8 in every shape
 		cfgs = append(cfgs,
-			cklib.Cfg{Name: "std-logN5-P2-sparse3", RingType: ring.Standard, LogN: 5, LogQ: q4, LogP: []int{61, 61}, LogScale: 45, LogSlots: 3},
-			cklib.Cfg{Name: "std-logN6-P1", RingType: ring.Standard, LogN: 6, LogQ: q4, LogP: []int{61}, LogScale: 45, LogSlots: -1},
-			cklib.Cfg{Name: "ci-logN5-P1-sparse3", RingType: ring.ConjugateInvariant, LogN: 5, LogQ: q4, LogP: []int{61}, LogScale: 45, LogSlots: 3},
-			cklib.Cfg{Name: "ci-logN6-P1", RingType: ring.ConjugateInvariant, LogN: 6, LogQ: q4, LogP: []int{61}, LogScale: 45, LogSlots: -1},
-			cklib.Cfg{Name: "std-logN7-P1", RingType: ring.Standard, LogN: 7, LogQ: q4, LogP: []int{61}, LogScale: 45, LogSlots: -1},
-			cklib.Cfg{Name: "std-logN7-P2-sparse4", RingType: ring.Standard, LogN: 7, LogQ: q4, LogP: []int{61, 61}, LogScale: 45, LogSlots: 4},
-			cklib.Cfg{Name: "std-logN5-P0", RingType: ring.Standard, LogN: 5, LogQ: q4, LogScale: 45, LogSlots: -1, Pow2: 6},
+			mk("std-logN6-P2", std, 6, q5, p2, -1, 0), mk("std-logN6-P0", std, 6, q4, nil, -1, 6), mk("std-logN6-P3", std, 6, q5, p3, -1, 0),
+			mk("ci-logN6-P2", ci, 6, q4, p2, -1, 0), mk("ci-logN6-P0", ci, 6, q4, nil, -1, 6),
+			mk("std-logN7-P0", std, 7, q4, nil, -1, 6), mk("std-logN7-P2", std, 7, q5, p2, -1, 0), mk("ci-logN7-P1", ci, 7, q4, p1, -1, 0),
+			mk("std-logN7-P1-sparse5", std, 7, q4, p1, 5, 0), mk("ci-logN7-P2-sparse6", ci, 7, q4, p2, 6, 0),
+			mk("std-logN8-P1", std, 8, q4, p1, -1, 0), mk("std-logN8-P2-sparse6", std, 8, q4, p2, 6, 0), mk("ci-logN8-P1-sparse6", ci, 8, q4, p1, 6, 0),
+			mk("std-logN8-P2", std, 8, q4, p2, -1, 0), mk("ci-logN8-P1", ci, 8, q4, p1, -1, 0), mk("std-logN8-P0-sparse5", std, 8, q4, nil, 5, 6), mk("std-logN8-P3-sparse7", std, 8, q5, p3, 7, 0),
 		)
 	}
 	return cfgs
@@ -55,30 +59,51 @@ func worlds(tier string) []*world {
 	for _, cf := range ckksCfgs(tier) {
 		ws = append(ws, ckksWorld(cf))
 	}
-	ws = append(ws, bgvWorld(4, 1, 97), bgvWorld(4, 0, 97), bgvWorld(4, 2, 97), bgvWorld(5, 1, 193))
+	// BGV: t=97/193/257 plaintext ring = ciphertext ring; t=17 (LogN 4, 5) plaintext ring smaller (gap 2, 4);
+	// without P both the default keys and base-2^16 keys
+	ws = append(ws, bgvWorld(4, 1, 97, 0), bgvWorld(4, 0, 97, 0), bgvWorld(4, 0, 97, 16), bgvWorld(4, 2, 97, 0), bgvWorld(4, 1, 17, 0),
+		bgvWorld(5, 1, 193, 0), bgvWorld(5, 2, 193, 0), bgvWorld(5, 0, 193, 0), bgvWorld(5, 2, 17, 0), bgvWorld(6, 1, 257, 0))
 	if tier == "thorough" {
-		ws = append(ws, bgvWorld(5, 2, 193), bgvWorld(5, 0, 193), bgvWorld(6, 1, 257), bgvWorld(6, 2, 257), bgvWorld(7, 1, 257))
+		ws = append(ws, bgvWorld(6, 2, 257, 0), bgvWorld(6, 0, 257, 16), bgvWorld(6, 1, 17, 0), bgvWorld(7, 1, 257, 0), bgvWorld(7, 2, 257, 0), bgvWorld(7, 0, 257, 0), bgvWorld(8, 1, 7681, 0), bgvWorld(8, 2, 7681, 0), bgvWorld(8, 1, 257, 0))
+	}
+	return ws
+}
+
+func rwWorlds(tier string) []*rw {
+	ws := []*rw{newRW(4, 1, false), newRW(4, 0, false), newRW(4, 2, false), newRW(5, 1, false), newRW(4, 1, true), newRW(5, 2, true), newRW(4, 0, true)}
+	if tier == "thorough" {
+		ws = append(ws, newRW(6, 1, false), newRW(6, 2, false), newRW(6, 0, false), newRW(7, 1, false), newRW(6, 1, true), newRW(7, 2, true))
 	}
 	return ws
 }
 
 func scenarios(tier string) []engine.Scenario {
 	var scs []engine.Scenario
-	for _, logN := range []int{4, 5, 6} {
+	algN := []int{4, 5, 6, 7, 8}
+	if tier == "thorough" {
+		algN = append(algN, 9, 10)
+	}
+	for _, logN := range algN {
 		scs = append(scs, algebraScenario(ring.Standard, logN))
 		scs = append(scs, algebraScenario(ring.ConjugateInvariant, logN))
 	}
-	if tier == "thorough" {
-		for _, logN := range []int{7, 8} {
-			scs = append(scs, algebraScenario(ring.Standard, logN))
-			scs = append(scs, algebraScenario(ring.ConjugateInvariant, logN))
-		}
-	}
 	// worlds are built lazily, once per worker process that needs them, from (VERIF_SEED, name) only
 	for _, w := range worlds(tier) {
-		scs = append(scs, rotateScenario(w), sumsScenario(w), traceScenario(w), lateKeysScenario(w))
+		scs = append(scs, rotateScenario(w), traceScenario(w), lateKeysScenario(w))
+		for mi := range sumMethods {
+			scs = append(scs, sumsScenario(w, mi))
+		}
 		if w.scheme == "ckks" {
 			scs = append(scs, averageScenario(w))
+		}
+		if w.scheme == "bgv" && w.np > 0 && w.logN <= 6 {
+			scs = append(scs, userFunctionScenario(w))
+		}
+	}
+	for _, w := range rwWorlds(tier) {
+		scs = append(scs, rwAutoScenario(w), rwSumsScenario(w))
+		if w.logN <= 6 {
+			scs = append(scs, packingScenario(w))
 		}
 	}
 	return scs
@@ -108,7 +133,11 @@ func main() {
 				"rotate=plain", "rotate=hoisted", "rotate=hoisted-lazy", "rotate=order-two",
 				"k=zero", "k=positive", "k=negative", "k=full-turn", "k=beyond-slots", "k=huge",
 				"pair=n-pow2", "pair=n-not-pow2", "pair=n=1", "pair=beyond-row", "pair=not-dividing", "pair=invalid",
-				"innersum=bgv-full-1d", "rejected=InnerSum-outside-precondition", "sum=Average", "sum=Trace"}
+				"innersum=bgv-full-1d", "rejected=InnerSum-outside-precondition", "sum=Average", "sum=Trace", "sum=InnerFunction-product",
+				"np=3", "rotate=late-keys", "late-keys=none", "late-keys=other-rotation", "late-keys=order-two", "late-keys=same-then-more",
+				"packing=Expand", "packing=Pack-zeroing", "packing=Pack-clean", "rlwe-auto=ntt-false", "rlwe-auto=ntt-true", "rlwe-auto=hoisted",
+				"rlwe-sum=PartialTracesSum-ntt-false", "rlwe-sum=Replicate-ntt-false", "rlwe-sum=InnerFunction-user-ntt-false", "rlwe-sum=Trace-ntt-false", "rlwe-sum=Trace-ntt-true",
+				"trace=skipped-small-plaintext-ring", "bgv-plaintext-ring=smaller"}
 			for _, m := range sumMethods {
 				e = append(e, "sum="+m)
 			}
